@@ -85,11 +85,11 @@ def oracle(ops, outs):
                 t, _ = parse_dump(w[1:], 0)
                 _, keys = check_tree(t)
                 ref = set(keys)
-            elif w[0] in ("ins", "del"):
+            elif w[0] in ("ins", "del", "reins"):
                 k = int(w[1])
                 p = line.split()
                 assert p[0] == "RES" and p[2] == "DUMP", "unexpected line " + line
-                if w[0] == "ins":
+                if w[0] in ("ins", "reins"):
                     exp_rc = "-1" if k in ref else "0"
                     assert p[1] == exp_rc, f"insert {k} returned {p[1]}, expected {exp_rc}"
                     ref.add(k)
@@ -115,9 +115,11 @@ def run_both(ops):
         a = subprocess.run([HARNESS], input=text, stdout=subprocess.PIPE, stderr=subprocess.PIPE, text=True, timeout=90)
     except subprocess.TimeoutExpired as e:
         a = subprocess.CompletedProcess(e.cmd, -9, (e.stdout or b"").decode() if isinstance(e.stdout, bytes) else (e.stdout or ""), "TIMEOUT: iv_avl.c did not return")
-    b = subprocess.run([common.REPLAY_BIN, "avl"], input=text, stdout=subprocess.PIPE, stderr=subprocess.PIPE, text=True)
+    # for the models, inserting the node object that is already in the tree is an insert of a key that is present
+    mtext = text.replace("reins ", "ins ")
+    b = subprocess.run([common.REPLAY_BIN, "avl"], input=mtext, stdout=subprocess.PIPE, stderr=subprocess.PIPE, text=True)
     # the pointer-level model (Ivy.L0.AvlPtr: parent pointers, rebalance_path walk, min/max/next/prev) on the same ops
-    b.ptr = subprocess.run([common.REPLAY_BIN, "avlptr"], input=text, stdout=subprocess.PIPE, stderr=subprocess.PIPE, text=True)
+    b.ptr = subprocess.run([common.REPLAY_BIN, "avlptr"], input=mtext, stdout=subprocess.PIPE, stderr=subprocess.PIPE, text=True)
     return a, b
 
 
@@ -145,6 +147,8 @@ def gen_cases(tier, seed):
                 ops += [f"load {d}", f"ins {2*pos+1}"]
             for i in range(1, n + 1):
                 ops += [f"load {d}", f"del {2*i}"]
+            for i in range(1, n + 1):
+                ops += [f"load {d}", f"reins {2*i}", "trav"]
             ops += [f"load {d}", "trav"]
         yield (f"exh-h{h}", ops, f"exhaustive-height-{h}")
     if tier == "thorough":
@@ -167,6 +171,9 @@ def gen_cases(tier, seed):
         present = set()
         for _ in range(n):
             k = rng.randrange(-span, span)
+            if present and rng.random() < 0.05:
+                ops.append(f"reins {rng.choice(sorted(present))}")
+                continue
             if present and rng.random() < 0.45:
                 k = rng.choice(sorted(present)) if rng.random() < 0.9 else k
                 if k in present:
